@@ -116,12 +116,23 @@ def _fmt_axes(axes):
     return "(" + ", ".join("·".join(a) for a in axes) + ")"
 
 
+def is_transpose_call(t: T) -> bool:
+    return t.op == "call" and tm.callee_name(t) in (".transpose",
+                                                    "numpy.transpose")
+
+
+def transpose_arg(t: T) -> T:
+    return tm.method_recv(t) if tm.callee_name(t) == ".transpose" \
+        else t.args[1][0]
+
+
 class Analyzer:
     def __init__(self, x: T, y: T, joint_scale: bool = False):
         self.x, self.y = x, y
         self.joint = joint_scale
         self.memo: Dict[int, AV] = {}
         self.loop_index: Dict[int, AV] = {}     # lid -> column selector
+        self.loop_rows: Dict[int, bool] = {}    # lid -> iterates the points
         self.stats = {"terms": 0, "linear": 0, "nonlinear": 0,
                       "reductions": 0}
 
@@ -357,8 +368,21 @@ class Analyzer:
                 P.args[1].args[0].op == "slice" and \
                 self._index(P.args[1].args[1]) == "column":
             P = P.args[0]
+        if P.op == "elem" and self.loop_rows.get(P.args[1]):
+            P = P.args[0]
+            if P.op == "attr" and P.args[1] == "T":
+                P = P.args[0]
+            elif is_transpose_call(P):
+                P = transpose_arg(P)
+            else:
+                return False
         pv = self.memo.get(id(P))
-        if pv is None or len(pv.axes) != 2 or pv.axes[1] != IDX:
+        if pv is None:
+            try:
+                pv = self.ev(P)
+            except (Unknown, Inequivariant):
+                return False
+        if len(pv.axes) != 2 or pv.axes[1] != IDX:
             return False
         mterm = r
         if mterm.op == "sub":
@@ -763,6 +787,16 @@ class Analyzer:
         if not idx:
             raise Unknown(f"loop {lid} does not address points")
         it = idx[0].args[0]
+        if tm.callee_name(it) != "builtins.range":
+            # direct iteration over the points: for x_i, y_i in zip(x.T, y.T)
+            rows = []
+            for e_ in idx:
+                sv = self.ev(e_.args[0])
+                if sv.tup is not None or not sv.axes or sv.axes[0] != IDX:
+                    raise Unknown(f"loop over {tm.show(e_.args[0])[:60]}")
+                rows.append(sv)
+            self.loop_rows[lid] = True
+            return self._accumulate(t, name, lid, i0, upd)
         if not (tm.callee_name(it) == "builtins.range"
                 and len(it.args[1]) == 1 and not it.args[2]):
             rng = tm.show(it)[:60]
@@ -781,6 +815,9 @@ class Analyzer:
         if any(x is not idx[0] for x in idx):
             raise Unknown("several index forms in one loop")
         self.loop_index[lid] = idx[0]
+        return self._accumulate(t, name, lid, i0, upd)
+
+    def _accumulate(self, t, name, lid, i0, upd):
         lv = [x for x in upd.walk() if x.op == "loopvar" and
               x.args[0] == name and x.args[1] == lid]
         if upd.op != "binop" or upd.args[0] != "Add" or not lv:
@@ -803,4 +840,10 @@ class Analyzer:
                   w_scale_term(bv.wx, n_t), w_scale_term(bv.wy, n_t))
 
     def op_elem(self, t):
+        src, lid = t.args
+        if self.loop_rows.get(lid):
+            sv = self.ev(src)
+            if sv.tup is None and sv.axes and sv.axes[0] == IDX:
+                # one point of a full, paired iteration over the points
+                return replace(sv, axes=sv.axes[1:])
         raise Unknown(f"bare loop element {tm.show(t)[:50]}")
